@@ -34,7 +34,7 @@ REFUTED = ['C18_drop_empty_maxsplit_refuted: with max_split given, keep_empty=Fa
            'result (max_split counts kept parts, like str.split(None, n)); the law is proved for max_split=None',
            'C18_split_at_node_exact_count_refuted: split_at_node(max_split=n>=2) performs only n-1 splits (off-by-one in the '
            'code; "at most n" still holds and is proved)']
-CASE_TIMEOUT = 4.0
+CASE_TIMEOUT = 30.0      # generous: spurious timeouts under load would read as disagreements
 ALWAYS_SEARCH = False
 
 SPACES = [9, 10, 11, 12, 13, 28, 29, 30, 31, 32, 133, 160, 5760, 8192, 8193, 8194, 8195, 8196, 8197, 8198, 8199,
@@ -71,9 +71,15 @@ class _M(object):
         return self.b
 
 
+_CALLS = [0]
+
+
 def sep_callable(chars, pos):
     """twin of Split.m_call: next ';' or '|' at or after pos, a doubled character is one separator.
     Exercises every documented way of saying 'no more separators' and both result shapes."""
+    _CALLS[0] += 1
+    if _CALLS[0] > 20000:
+        raise _Hang()               # a split loop that does not terminate is reported, not waited for
     i = pos
     while i < len(chars) and chars[i] not in ';|':
         i += 1
@@ -336,6 +342,7 @@ def call_real(d):
     from pylatexenc.latexwalker import LatexWalkerParseError
     from pylatexenc.latexnodes import SingleParsedArgumentInfo
     fn = d['fn']
+    _CALLS[0] = 0
     try:
         if fn in ('argnl', 'argchars', 'argkv'):
             w, nl = _parse(d['s'])
@@ -382,6 +389,14 @@ def _dump_kv(r):
 
 def _dump_parts(r):
     return '[' + ','.join(treedump.dump(p) for p in r) + ']'
+
+
+def same(m, i, c):
+    if isinstance(i, str) and i.startswith('!TIMEOUT'):
+        import common                   # a loaded machine: run the case once more, alone
+        r = common._pool_call((impl, c, 60.0))
+        i = r if isinstance(r, str) else '!' + str(r[0])
+    return m == i
 
 
 def impl(c):
